@@ -259,7 +259,9 @@ fn run_api(ops: &[Op]) -> CaseResult {
                     if !r.snaps.is_empty() {
                         let (sg, sm) = &r.snaps[*k as usize % r.snaps.len()];
                         let d = sg.diff(&r.g);
-                        if d.is_none() != (*sm == r.m) {
+                        // whether a NaN weight equals itself is unspecified
+                        let nan = sm.edges.values().chain(r.m.edges.values()).any(|w| w.is_nan());
+                        if !nan && d.is_none() != (*sm == r.m) {
                             return Err(Fail::new("C18/diff", format!("diff is {:?} but the models are {}equal: {:?} vs {:?}", d, if *sm == r.m { "" } else { "not " }, sm, r.m)));
                         }
                         let d2 = r.g.diff(sg);
@@ -289,7 +291,13 @@ fn idref() -> BoxedStrategy<IdRef> {
     prop_oneof![8 => (0u8..6).prop_map(IdRef::Live), 2 => (0u8..4).prop_map(IdRef::Removed), 1 => Just(IdRef::Never)].boxed()
 }
 fn op_strategy() -> BoxedStrategy<Op> {
-    let w = prop_oneof![3 => (-8i32..8).prop_map(|x| x as f32 / 2.0), 1 => -100.0f32..100.0];
+    // weights: halves, arbitrary, and special values - pairs one ulp apart (different weights),
+    // infinities (equal to themselves), NaN, signed zeros
+    let w = prop_oneof![
+        6 => (-8i32..8).prop_map(|x| x as f32 / 2.0),
+        2 => -100.0f32..100.0,
+        3 => prop::sample::select(vec![1.0f32, 1.000_000_1, 0.1, 0.100_000_01, 1e-8, 2e-8, 0.0, -0.0, f32::INFINITY, f32::NEG_INFINITY, f32::NAN, f32::MAX, f32::MIN_POSITIVE]),
+    ];
     prop_oneof![
         6 => (-2i32..4).prop_map(AddNode),
         3 => idref().prop_map(RemoveNode),
@@ -383,7 +391,10 @@ fn intref() -> BoxedStrategy<IntRef> {
 
 /// statement-shaped groups so that operands are usually present
 fn group() -> BoxedStrategy<Vec<Tok>> {
-    let w = (-8i32..8).prop_map(|x| x as f32 / 2.0);
+    let w = prop_oneof![
+        8 => (-8i32..8).prop_map(|x| x as f32 / 2.0),
+        2 => prop::sample::select(vec![1.0f32, 1.000_000_1, 0.1, 0.100_000_01, 0.0, -0.0, f32::INFINITY, f32::NEG_INFINITY, f32::NAN, f32::MAX]),
+    ];
     let pos = prop::sample::select(vec![-1, 0, 1, 2, 3, 50]).prop_map(IntRef::Lit);
     let st = prop::collection::vec(-1i32..3, 0..3);
     prop_oneof![
@@ -572,6 +583,10 @@ fn ref_graph(s0: &StateSpec, name: &str) -> Option<GExp> {
         }
         "GRAPH.PRINT*DIFF" => {
             if s.graphs.len() >= 2 {
+                // whether a NaN weight equals itself is unspecified
+                if s.graphs[0].edges.iter().chain(s.graphs[1].edges.iter()).any(|e| e.2.is_nan()) {
+                    return None;
+                }
                 // the diff text is pushed exactly when the two snapshots differ
                 if GModel::from_spec(&s.graphs[0]) != GModel::from_spec(&s.graphs[1]) {
                     s.names.insert(0, String::new());
